@@ -46,7 +46,9 @@ def run(cmd, **kw):
 
 def mirror():
     os.makedirs(SRC, exist_ok=True)
-    run(["rsync", "-a", "--checksum", "--delete", "--exclude=/.git", "--exclude=/_build",
+    # -a without -t: a file whose content differs is rewritten with the CURRENT time, so ninja rebuilds it even
+    # when the new content carries an older timestamp than the objects (a restore, another worktree)
+    run(["rsync", "-rlpgoD", "--checksum", "--delete", "--exclude=/.git", "--exclude=/_build",
          "--exclude=/.build", REPO + "/", SRC + "/"])
 
 
